@@ -12,7 +12,7 @@ HARNESS = ["network/transport/v2/zz_verif_c07_test.go", "network/transport/v2/zz
 REQUIRED = ["safety_any_schedule", "unsolicited_responses_change_no_dag", "chunks_lossless", "stable_when_equal",
             "pull_round_result", "stuck_both_ways_same", "round_progress", "converges", "stable_after_convergence", "rounds_are_schedules", "range_reply_sorted_prefixclosed",
             "fact_constants", "fact_blockable", "fact_transaction_set_shape", "fact_transaction_list_shape", "fact_gossip_condition",
-            "fact_handled_envelopes", "fact_liveness_constants", "fact_dispatch_and_wiring", "chunks_fit_message_limit", "fact_chunk_accounting", "fact_add_mutex_release", "add_mutex_released_on_every_exit", "deferred_once_releases_exactly_once", "hooks_alone_leave_mutex_locked"]
+            "fact_handled_envelopes", "fact_liveness_constants", "fact_dispatch_and_wiring", "chunks_fit_message_limit", "fact_chunk_accounting", "fact_add_mutex_release", "add_mutex_released_on_every_exit", "deferred_once_releases_exactly_once", "hooks_alone_leave_mutex_locked", "fact_gossip_peer_table_keys", "disconnect_removes_queue", "reconnect_gets_fresh_queue", "connect_then_disconnect_leaves_no_entry"]
 
 
 def scenario_slices(ops):
@@ -86,7 +86,7 @@ def run(ctx):
     if ctx.replay:
         env["VERIF_REPLAY"] = os.path.abspath(ctx.replay)
     else:
-        env["VERIF_SCENARIOS"] = 110 if ctx.thorough else 30
+        env["VERIF_SCENARIOS"] = 110 if ctx.thorough else 27
     rc, log, out = ctx.run_harness(binary, "TestVerifC07", env, timeout=3000)
     if rc != 0:
         ctx.oblige("harness-runs", False, log[-1500:])
@@ -213,9 +213,9 @@ def run(ctx):
             "iblt-decode-failed", "iblt-decode-ok-with-missing", "rejected:err:unknown-conv", "connection-down-or-disconnected", "gossip-with-refs", "tick-without-connection-keeps-queue"]
     for v in verdicts:
         for f in v.get("features", []):
-            if f in ("equal-height-large-diff-on-page>=1", "behind-peer-wide-page0", "many-refs-per-clock", "disjoint-branches"):
+            if f in ("equal-height-large-diff-on-page>=1", "behind-peer-wide-page0", "many-refs-per-clock", "disjoint-branches", "connection-flap-then-new-transactions"):
                 edges["scenario:" + f] += 1
-    need += ["scenario:equal-height-large-diff-on-page>=1", "scenario:behind-peer-wide-page0", "node-restart", "add-failed-database-busy"]
+    need += ["scenario:equal-height-large-diff-on-page>=1", "scenario:behind-peer-wide-page0", "node-restart", "add-failed-database-busy", "scenario:connection-flap-then-new-transactions"]
     missing_edges = [e for e in need if edges[e] == 0] if not ctx.replay else []
     ctx.oblige("generator-reaches-the-protocol-edges(quick tier)", not missing_edges, f"edges not reached: {missing_edges}; reached: {dict(edges)}")
 
